@@ -16,6 +16,20 @@ void runCase(long long i, Prng& r, const Args& a) {
   std::string label;
   GenOpt o; o.thetaMax = PI - 1e-6; o.nearPiMin = 1e-6; o.linMax = 1e6;
   std::vector<MonS> tv = genTangent<MonS>(g, r, o, label);
+  // "for every tangent": every 8th case the rotation angle is moved beyond pi (where log never returns, but where a user-made tangent
+  // may well be): uniformly in (pi, 4pi) minus 0.3-neighbourhoods of the multiples of 2pi, where rjac/ljac are singular
+  if (i % 8 == 7) {
+    bool moved = false;
+    for (int b = 0; b < g.nb(); ++b) {
+      const ref::Elem& e = g.el[b]; if (!e.rot) continue;
+      double th0 = 0; for (int q = 0; q < (e.rot == 3 ? 3 : 1); ++q) th0 += (double)tv[g.dofOff[b] + e.rotIdx[q]] * (double)tv[g.dofOff[b] + e.rotIdx[q]];
+      th0 = std::sqrt(th0); if (!(th0 > 1e-3)) continue;
+      double target; do { target = r.uni(PI + 1e-3, 4 * PI - 0.3); } while (std::fabs(target - 2 * PI) < 0.3);
+      for (int q = 0; q < (e.rot == 3 ? 3 : 1); ++q) tv[g.dofOff[b] + e.rotIdx[q]] = (MonS)((double)tv[g.dofOff[b] + e.rotIdx[q]] * (target / th0));
+      moved = true;
+    }
+    if (moved) label = "th>pi/" + label.substr(label.find('/') == std::string::npos ? 0 : label.find('/') + 1);
+  }
   MonT t = tangentFrom<MonT>(tv);
   ref::VecL tl = toL(t.coeffs());
   const std::string cellkey = GN() + "/" + label, vkey = GN() + "/" + dropLin(label);
@@ -40,14 +54,16 @@ void runCase(long long i, Prng& r, const Args& a) {
   ref::BigL JrRefInv = ref::bigInverse(JrRef), JlRefInv = ref::bigInverse(JlRef);
   // single precision: groups without a closed-form inverse (SGal3, bundles with it) invert J numerically; with |time*velocity| ~ 1e8 the
   // matrix has condition 1e10 and more, which a float LU cannot resolve to 1e-2 -- a statement about float, not about the code.  Such
-  // samples are judged with an allowance proportional to u*cond and counted (double is always judged at the nominal tolerance)
+  // samples are counted and not judged (double is always judged)
   const double condR = (double)(JrRef.norm() * JrRefInv.norm()), condL = (double)(JlRef.norm() * JlRefInv.norm());
-  // the allowance grows with u*cond and only matters beyond cond ~ 2e8 (|time*velocity| or translations >= 1e4..1e5 in float)
-  const double tolInvR = dbl ? tolj : std::max(tolj, 1e-3 * Sc<MonS>::u() * condR), tolInvL = dbl ? tolj : std::max(tolj, 1e-3 * Sc<MonS>::u() * condL);
-  LOG.count(std::string(tolInvR > tolj || tolInvL > tolj ? "inverse-judged-with-conditioning-allowance(float)/" : "inverse-judged-at-nominal-tolerance/") + GN());
+  // beyond u*cond = 0.1 (cond > 2e6 in float) a float inverse has no correct digit left: counted, not judged
+  const bool resolvable = dbl || std::max(condR, condL) * Sc<MonS>::u() < 0.1;
+  LOG.count(std::string(resolvable ? "inverse-judged/" : "inverse-not-judged(float,u*cond>=0.1)/") + GN());
   if (getenv("C06_DEBUG")) fprintf(stderr, "cond %g %g errs %g %g\n", condR, condL, (double)relF(Jri, JrRefInv), (double)relF(Jli, JlRefInv));
-  rec("rjacinv", relF(Jri, JrRefInv), tolInvR);
-  rec("ljacinv", relF(Jli, JlRefInv), tolInvL);
+  if (resolvable) {
+    rec("rjacinv", relF(Jri, JrRefInv), tolj);
+    rec("ljacinv", relF(Jli, JlRefInv), tolj);
+  }
   {
     // product identity, scaled so that blocks of very different magnitude (translations 1e6) do not dominate:
     // || Jrinv * Jr - I ||_F relative to ||Jrinv||_F * ||Jr||_F
